@@ -763,12 +763,31 @@ func (e *Engine) crcModel(st *State, bs []Value) *Term {
 		}
 	}
 	if allc {
+		// remembered (short sequences only) so that a later application to a
+		// partly symbolic sequence of the same length is related to this one by
+		// the one-byte-difference axiom
+		if len(ts) <= 128 {
+			st.crcApps = append(st.crcApps, ts)
+		}
 		return Const(32, uint64(crc32.ChecksumIEEE(raw)))
 	}
 	h := UF(fmt.Sprintf("crc_%d", len(ts)), 32, ts...)
 	for _, prev := range st.crcApps {
 		if len(prev) != len(ts) {
 			continue
+		}
+		prevConcrete := true
+		praw := make([]byte, len(prev))
+		for i := range prev {
+			if !prev[i].IsConst() {
+				prevConcrete = false
+				break
+			}
+			praw[i] = byte(prev[i].C)
+		}
+		if prevConcrete {
+			// a true fact about the function: its value on this concrete sequence
+			st.pc = append(st.pc, Cmp("=", UF(fmt.Sprintf("crc_%d", len(ts)), 32, prev...), Const(32, uint64(crc32.ChecksumIEEE(praw)))))
 		}
 		same := true
 		for i := range ts {
